@@ -28,6 +28,7 @@ RULE = (
 )
 SHARDS = {"quick": 8, "thorough": 16}
 CASE_TIMEOUT_S = 20  # CPU seconds; cases normally take milliseconds (finite, tiny state spaces)
+HANG_IS_VIOLATION = True  # a planning loop that does not return is the property failing
 _CASE_NO = 0
 
 IF_PROF = gen.Profile(
